@@ -2,7 +2,7 @@
 
     Gen/Trans_multiboot.v is regenerated on every run by gen/gotrans (config gen/gotrans/multiboot.json, feature
     "memstructs" = typed struct pointers into memory, gen/gotrans/ext_mb.go) from kernel/multiboot/multiboot.go:
-    findTagByType, VisitMemRegions, GetFramebufferInfo, VisitElfSections.  In the translation a `*tagHeader`, `*mmapHeader`,
+    findTagByType, VisitMemRegions, GetFramebufferInfo, FramebufferInfo.RGBColorInfo, VisitElfSections.  In the translation a `*tagHeader`, `*mmapHeader`,
     `*MemoryMapEntry`, `*FramebufferInfo`, `*elfSections`, `*elfSection64` is an ADDRESS, `p.f` is a load of <size of f> bytes at p + <offset of f>
     ([gload], Lib/GoOps.v), `entry.Type = MemReserved` is a store; sizes and offsets are computed by the translator from
     the struct declarations by Go's layout rules and the generated file ends with `Example`s stating that they equal
@@ -32,9 +32,10 @@
     locals; handed to the visitor it is PRESENTED as the [Len] bytes at [Data] ([gldbytes], Lib/GoMb.v: no access for
     an empty string, otherwise one load of Len bytes); the call is the event [ev_section s] =
     GCall "visitor" [GBytes name; GNum flags; GNum address; GNum size]; this visitor returns nothing.
-    NOT translated: GetBootCmdLine (strings.Fields / strings.Split / map: library code; its only integer code is
-    `size - 1`), FramebufferInfo.RGBColorInfo (a method whose receiver is the pointer; the model reads the six bytes the
-    caller would).  They stay tied by differential testing and source pins.
+    NOT translated: GetBootCmdLine (a []byte over the block through a reflect.SliceHeader literal, then string(),
+    strings.Fields, strings.Split and a map: library code; its only integer code is `size - 1`).  It stays tied by
+    differential testing and source pins; so do the FIELD READS a caller makes through the pointers returned by
+    GetFramebufferInfo / RGBColorInfo (kernel/device/video/console; the model's [read_fb] makes them).
     Statements only; proofs in Multiboot/DecodeTrans.v and Multiboot/DecodeTransBlock.v. *)
 From Coq Require Import String NArith List Bool.
 From FF Require Import Lib.Word Lib.GoOps Gen.Consts_multiboot Gen.Trans_multiboot Multiboot.Model Multiboot.Spec
@@ -107,6 +108,33 @@ Theorem C10_getFramebufferInfo_is_translation :
       end.
 Proof. exact T.getFramebufferInfo_is_translation. Qed.
 Print Assumptions C10_getFramebufferInfo_is_translation.
+
+(** FramebufferInfo.RGBColorInfo: a fault if the type byte cannot be read, nil unless the type is RGB, else the address
+    of the dummy field colorInfo (offset computed from the struct declaration, checked against unsafe.Offsetof) *)
+Theorem C10_rgbColorInfo_is_translation :
+  forall (w : @go_multiboot_world mem) (p : N),
+    T.mem_bytes (f_world_mem w) ->
+    go_multiboot_FramebufferInfo_RGBColorInfo T.mld w p =
+      match rd (f_world_mem w) (padd p mb_off_FramebufferInfo_Type) 1 with
+      | Ok t => GOk (w, if t =? mb_FramebufferTypeRGB then padd p mb_off_FramebufferInfo_colorInfo else 0)
+      | _ => GPanic
+      end.
+Proof. exact T.rgbColorInfo_is_translation. Qed.
+Print Assumptions C10_rgbColorInfo_is_translation.
+
+(** ... and the model's [read_fb] - the function C10_framebuffer is about - reads the six colour-layout bytes exactly
+    at the pointer the regenerated RGBColorInfo returns, and reports no layout exactly when it returns nil *)
+Theorem C10_read_fb_uses_rgbColorInfo :
+  forall (t0 : list gcall) (m : mem) (p : N) (f : fbinfo),
+    T.mem_bytes m -> read_fb m p = Ok f ->
+    match fb_rgb f with
+    | Some c => go_multiboot_FramebufferInfo_RGBColorInfo T.mld (T.mkw t0 m) p =
+                  GOk (T.mkw t0 m, padd p mb_off_FramebufferInfo_colorInfo) /\
+                rd_each m (padd p mb_off_FramebufferInfo_colorInfo) rgb_offsets = Ok c
+    | None => go_multiboot_FramebufferInfo_RGBColorInfo T.mld (T.mkw t0 m) p = GOk (T.mkw t0 m, 0)
+    end.
+Proof. exact T.read_fb_rgb_at. Qed.
+Print Assumptions C10_read_fb_uses_rgbColorInfo.
 
 (** VisitElfSections: whenever the model's run ends - normally or with a stray access - the regenerated function,
     given the model's fuel for the tag walk and for the name scans and more than 2^16 (numSections is a uint16),
